@@ -514,4 +514,59 @@ theorem roundRat_sub (neg : Bool) (n d : ℕ) (hn : n ≠ 0) (hd : d ≠ 0) (q c
   have hpair : divPow2 n d (-1074) = (q, c) := Prod.ext e1 e2
   rw [roundRat_unfold neg n d hn hd, hE, hpair]
 
+theorem rhe_le (q c : ℕ) : q ≤ roundHalfEven q c ∧ roundHalfEven q c ≤ q + 1 := by
+  simp only [roundHalfEven]
+  split
+  · omega
+  · split
+    · split <;> omega
+    · omega
+
+/-- **at or beyond `2^1024` the result is the overflow** -/
+theorem roundRat_overflow (neg : Bool) (n d : ℕ) (hn : n ≠ 0) (hd : d ≠ 0) (hx : (2 : ℚ) ^ (1024 : ℤ) ≤ (n : ℚ) / d) :
+    roundRat neg n d = (signBit neg + 2047 * 2 ^ 52, true) := by
+  obtain ⟨a, b⟩ := expPre_spec n d hn hd
+  have hq := (divPow2_spec n d (Nat.pos_of_ne_zero hd) (expPre n d)).1
+  obtain ⟨_, u⟩ := isQ_normal_bounds hq a b
+  have hlt : (1024 : ℤ) < 53 + expPre n d := zpow_two_lt (lt_of_le_of_lt hx u)
+  have hE : expOf n d = expPre n d := by
+    rw [expOf_pre, if_neg (by omega)]
+  rw [roundRat_unfold neg n d hn hd, hE]
+  obtain ⟨r1, r2⟩ := rhe_le (divPow2 n d (expPre n d)).1 (divPow2 n d (expPre n d)).2
+  simp only [roundAt]
+  generalize roundHalfEven (divPow2 n d (expPre n d)).1 (divPow2 n d (expPre n d)).2 = M at r1 r2
+  by_cases hc : M = 2 ^ 53
+  · rw [if_pos (beq_iff_eq.mpr hc)]
+    simp only []
+    rw [if_neg (Nat.lt_irrefl _), if_pos (by omega)]
+  · have hcb : ¬ ((M == 2 ^ 53) = true) := by simpa using hc
+    rw [if_neg hcb]
+    simp only []
+    rw [if_neg (by omega), if_pos (by omega)]
+
+/-- **below `2^-1075` (half the smallest subnormal) the result is zero** -/
+theorem roundRat_zero (neg : Bool) (n d : ℕ) (hn : n ≠ 0) (hd : d ≠ 0) (hx : (n : ℚ) / d < 2 ^ (-1075 : ℤ)) :
+    roundRat neg n d = (signBit neg, false) := by
+  have hpos : (0 : ℚ) < (n : ℚ) / d := by
+    have h1 : (0 : ℚ) < n := by exact_mod_cast Nat.pos_of_ne_zero hn
+    have h2 : (0 : ℚ) < d := by exact_mod_cast Nat.pos_of_ne_zero hd
+    positivity
+  have hhalf : ((0 : ℕ) : ℚ) + 1 / 2 = 1 / 2 := by norm_num
+  have h75 : (1 / 2 : ℚ) * 2 ^ (-1074 : ℤ) = 2 ^ (-1075 : ℤ) := by
+    have : (2 : ℚ) ^ (-1074 : ℤ) = 2 ^ (-1075 : ℤ) * 2 := by
+      rw [show (-1074 : ℤ) = -1075 + 1 by norm_num, zpow_add₀ (by norm_num)]; simp
+    rw [this]; ring
+  have hq : IsQ ((n : ℚ) / d) (-1074) 0 := by
+    constructor
+    · simp; exact hpos.le
+    · simp only [Nat.cast_zero, zero_add, one_mul]
+      have : (2 : ℚ) ^ (-1075 : ℤ) ≤ 2 ^ (-1074 : ℤ) := zpow_le_zpow_right₀ (by norm_num) (by norm_num)
+      linarith
+  have hc : IsC ((n : ℚ) / d) (-1074) 0 1 := by
+    right; left
+    refine ⟨rfl, by simpa using hpos, ?_⟩
+    rw [hhalf, h75]; exact hx
+  rw [roundRat_sub neg n d hn hd 0 1 hq hc (by norm_num)]
+  simp [roundAt, roundHalfEven]
+
 end RJson.RoundRat
